@@ -187,7 +187,7 @@ def getattr_(ex, o, name):
                 ga = class_lookup(ho.cls, '__getattr__')[1]
                 if isinstance(ga, types.FunctionType):
                     return ex.call(ex.func_of_native(ga), [o, name], {})
-            if ex.skeleton:
+            if ex.skeleton and may_be_instance_attr(ho.cls, name):
                 ex.abstraction_used = True
                 return Unknown(f'.{name}')
             if ho.model is not None and name in ho.model.fields:
@@ -231,6 +231,52 @@ def getattr_(ex, o, name):
             f.cls = owner
             return Bound(f, v.__self__)
     return ex.import_native(v)
+
+
+_INST_ATTRS: dict = {}
+
+
+def may_be_instance_attr(cls, name):
+    """skeleton profile: can an instance of `cls` have an attribute `name` that is not found on the class?  Only if some
+    class of its MRO assigns it (`self.name = ..`, `self.name: T`, a class-level annotation) or sets attributes
+    dynamically (setattr / __dict__ / __setattr__ / __getattr__); a class whose source cannot be read counts as "may".
+    (Attributes planted on the instance from outside the class are environment.)"""
+    if cls is None:
+        return True
+    key = (cls, name)
+    if key not in _INST_ATTRS:
+        _INST_ATTRS[key] = _scan_instance_attr(cls, name)
+    return _INST_ATTRS[key]
+
+
+def _scan_instance_attr(cls, name):
+    import ast as _ast
+    import inspect as _inspect
+    import textwrap as _textwrap
+
+    for c in cls.__mro__:
+        if c in (object,) or c.__module__ in ('typing', 'abc', 'builtins'):
+            continue
+        if name in getattr(c, '__annotations__', {}):
+            return True
+        try:
+            tree = _ast.parse(_textwrap.dedent(_inspect.getsource(c)))
+        except (OSError, TypeError, SyntaxError):
+            return True
+        # pickling / copying hooks restore the attributes an instance already had: they create no new names
+        for x in _ast.walk(tree):
+            if isinstance(x, _ast.ClassDef):
+                x.body = [y for y in x.body if not (isinstance(y, _ast.FunctionDef) and y.name in ('__getstate__', '__setstate__', '__reduce__', '__copy__', '__deepcopy__'))]
+        for x in _ast.walk(tree):
+            if isinstance(x, _ast.Attribute) and isinstance(x.ctx, (_ast.Store, _ast.Del)) and x.attr == name:
+                return True
+            if isinstance(x, _ast.Name) and x.id in ('setattr', '__dict__'):
+                return True
+            if isinstance(x, _ast.Attribute) and x.attr in ('__dict__', '__setattr__'):
+                return True
+            if isinstance(x, _ast.FunctionDef) and x.name in ('__getattr__', '__setattr__', '__getattribute__'):
+                return True
+    return False
 
 
 def type_of_recv(ex, v):
@@ -359,6 +405,9 @@ def obj_len(ex, ref, ho):
 
 def obj_special(ex, ref, name, args):
     ho = ex.obj(ref)
+    if ho.model is not None and name in ho.model.methods:
+        # the class model declares the special method (a recorded callback / spec function of a ghost collaborator)
+        return ex.call(ex.getattr(ref, name), list(args), {})
     owner, raw = class_lookup(ho.cls, name)
     if isinstance(raw, types.FunctionType):
         return ex.call(ex.func_of_native(raw), [ref] + list(args), {})
